@@ -128,3 +128,6 @@ Definition sf_of (k : N) (m e : Z) : spec_float :=
   match k with
   | 0 => S754_zero false | 1 => S754_finite false (Z.to_pos m) e | 2 => S754_finite true (Z.to_pos m) e
   | 3 => S754_infinity false | 4 => S754_infinity true | _ => S754_nan end.
+(* the same, normalised to the canonical binary64 representation (for values built outside Go's bits) *)
+Definition sf_norm (k : N) (m e : Z) : spec_float :=
+  match k with 1 => f64_dyadic m e | 2 => f64_dyadic (- m) e | _ => sf_of k m e end.
